@@ -145,32 +145,41 @@ theorem childEnv_lookup (loc : Loc) (env : Env) (c : Child) (p : Name) :
   unfold childEnv
   exact lookup_map_snd c.raw _ p
 
+/-- Looking a parameter up in the materialised parameters of the innermost frame is the lazy lookup along the call
+chain — for every chain and parameter. -/
+theorem chainEnv_lookup (chain : List Frame) (p : Name) : (chainEnv chain).lookup p = valueOf chain p := by
+  cases chain with
+  | nil => rfl
+  | cons f up =>
+    simp only [chainEnv, valueOf]
+    exact lookup_map_snd f.raw _ p
+
 /-- `flattenOp_eq_flattenSpec` at the level of the walk: for every fuel, scope stack, location, template and
-every environment that agrees with the call chain, the component instances produced by the code's walk
+every environment that is the one of the call chain, the component instances produced by the code's walk
 (components first in reverse order, then workflows; parameters substituted level by level) are a permutation
 of the instances of the denotational specification (paths in `execute` order; parameter values looked up
-along the call chain), with identical locations and identical resolved arguments. -/
+along the call chain), with identical locations, identical resolved arguments, identical environment value and
+identical values of ALL parameters (also of those that the component never interpolates into its arguments). -/
 theorem visit_perm_specVisit (ns : Namespace) : ∀ (fuel : Nat) (avail : List Name) (loc : Loc) (t : Template)
-    (env : Env) (chain : List Frame) (dsl : ErrLoc), (∀ p, env.lookup p = valueOf chain p) →
+    (env : Env) (chain : List Frame) (dsl : ErrLoc), env = chainEnv chain →
     ((visit ns fuel avail loc t env dsl).insts.map Inst.toSpec).Perm (specVisit ns fuel avail loc t chain) := by
   intro fuel
   induction fuel with
   | zero => intro avail loc t env chain dsl h; simp [visit, specVisit]
   | succ f ih =>
     intro avail loc t env chain dsl h
-    have hf : (fun p => env.lookup p) = valueOf chain := funext h
+    have hf : (fun p => env.lookup p) = valueOf chain := funext fun p => by rw [h]; exact chainEnv_lookup chain p
     unfold visit specVisit
     split
-    · simp [Inst.toSpec, hf]
+    · have hc : (fun p => List.lookup p (chainEnv chain)) = valueOf chain := funext (chainEnv_lookup chain)
+      simp [Inst.toSpec, h, hc]
     · rename_i steps execute _
       simp only [append_insts, List.nil_append, concat_insts, List.flatMap_map, List.map_flatMap]
       refine (List.Perm.flatMap_right _ (visitOrder_perm _)).trans ?_
       apply flatMap_perm_pointwise
       intro c _
       apply ih
-      intro p
-      rw [childEnv_lookup, hf]
-      rfl
+      simp only [childEnv, chainEnv, hf]
 
 /-- `flattenOp_eq_flattenSpec`: for every namespace whose entry template exists, the instances (location and
 fully substituted arguments) computed by the operational flattener are a permutation of the denotational ones. -/
@@ -179,9 +188,8 @@ theorem flattenOp_eq_flattenSpec (ns : Namespace) (t : Template) (h : ns.find ns
   unfold rootVisit flattenSpec
   rw [h]
   apply visit_perm_specVisit
-  intro p
-  simp only [valueOf]
-  rw [lookup_map_snd]
+  have hv : (valueOf []) = fun _ => none := funext fun _ => rfl
+  simp only [chainEnv, hv]
 
 /-! ### no parameter reference is left -/
 
@@ -1342,5 +1350,199 @@ example : ([(lc "env", [Tok.dict (lc "{A:1}")])] : Env).lookup (lc "env") = some
 example : envOf [(lc "env", [.lit (lc "fast")])] (some (lc "env")) = none ∧
     envOf [] (some (lc "nosuch")) = none ∧
     envOf [(lc "env", [.lit (lc "none")])] (some (lc "env")) = some .empty := by decide
+
+/-! ### references that reach a component only through its parameters -/
+
+/-- all complete references of a component instance: of the parameter values, then of the resolved arguments -/
+def allRefs (rep : Bool) (i : Inst) : List (Loc × S) :=
+  ((i.params.flatMap fun a => fullRefs a.2) ++
+    fullRefs (merge (substV (maskReplica rep fun p => i.params.lookup p) i.arguments))).eraseDups
+
+theorem digest_ok_shape (names : List (Loc × FName)) (rep : Bool) (i : Inst) (c : Comp)
+    (h : digest names rep i = .ok c) :
+    (allRefs rep i).all (fun r => (split (names.map (·.1)) r.1).isSome) = true ∧
+    c.refs = (allRefs rep i).flatMap (fun r => convTok names (.ref r.1 (some r.2))) ∧
+    c.producers = ((allRefs rep i).filterMap (fun r => (split (names.map (·.1)) r.1).map (·.1))).eraseDups := by
+  unfold digest at h
+  cases hp : strayPar rep (merge (substV (maskReplica rep fun p => i.params.lookup p) i.arguments)) with
+  | true =>
+    exfalso
+    simp only [hp, ↓reduceIte] at h
+    by_cases h1 : (!(partialRefs (merge i.arguments)).isEmpty) = true
+    · simp [h1] at h
+    · simp [h1] at h
+  | false =>
+    simp only [hp, Bool.false_eq_true, ↓reduceIte, List.nil_append] at h
+    by_cases h1 : (!(partialRefs (merge (substV (maskReplica rep fun p => i.params.lookup p) i.arguments))).isEmpty) = true
+    · simp [h1] at h
+    · simp only [h1] at h
+      simp only [Bool.false_eq_true, ↓reduceIte] at h
+      by_cases h2 : (((List.flatMap (fun a => partialRefs a.snd) i.params).all fun l =>
+                        (fullRefs (merge (substV (maskReplica rep fun p => List.lookup p i.params) i.arguments))).any
+                          fun r => r.fst == l) &&
+                      (allRefs rep i).all
+                        fun r => (split (List.map (fun x => x.fst) names) r.fst).isSome) = true
+      · unfold allRefs at h2
+        simp only [h2, ↓reduceIte, List.isEmpty_nil] at h
+        have hc := Except.ok.inj h
+        subst hc
+        simp only [Bool.and_eq_true] at h2
+        exact ⟨h2.2, rfl, rfl⟩
+      · unfold allRefs at h2
+        have h2' := Bool.eq_false_iff.mpr h2
+        simp only [h2', Bool.false_eq_true, ↓reduceIte] at h
+        simp at h
+
+/-- A complete output reference that reaches a component as (part of) the value of one of its parameters is a
+reference of the compiled component and its producer is one of the component's producers — whether or not the
+parameter is interpolated into `command.arguments` (the idiom `param: <producer>/file:copy` for staging a file) —
+for every naming table, instance and accepted component. -/
+theorem parameter_reference_kept (names : List (Loc × FName)) (rep : Bool) (i : Inst) (c : Comp)
+    (h : digest names rep i = .ok c) (a : Name × Val) (ha : a ∈ i.params) (l : Loc) (m : S)
+    (hr : (l, m) ∈ fullRefs a.2) :
+    ∃ pr f, split (names.map (·.1)) l = some (pr, f) ∧ pr ∈ c.producers ∧
+      OTok.dref ((names.lookup pr).getD (0, [])).1 ((names.lookup pr).getD (0, [])).2 f m ∈ c.refs := by
+  obtain ⟨hall, hrefs, hprod⟩ := digest_ok_shape names rep i c h
+  have hmem : (l, m) ∈ allRefs rep i := by
+    unfold allRefs
+    rw [List.mem_eraseDups]
+    exact List.mem_append_left _ (List.mem_flatMap.mpr ⟨a, ha, hr⟩)
+  have hs := (List.all_eq_true.mp hall) (l, m) hmem
+  cases hsp : split (names.map (·.1)) l with
+  | none => simp [hsp] at hs
+  | some pf =>
+    obtain ⟨pr, f⟩ := pf
+    refine ⟨pr, f, rfl, ?_, ?_⟩
+    · rw [hprod, List.mem_eraseDups]
+      exact List.mem_filterMap.mpr ⟨(l, m), hmem, by simp [hsp]⟩
+    · rw [hrefs]
+      exact List.mem_flatMap.mpr ⟨(l, m), hmem, by simp [convTok, hsp]⟩
+
+/-- … and likewise for the complete references of the resolved arguments: nothing else is a reference -/
+theorem references_are_parameter_or_argument_references (names : List (Loc × FName)) (rep : Bool) (i : Inst) (c : Comp)
+    (h : digest names rep i = .ok c) (x : OTok) (hx : x ∈ c.refs) :
+    ∃ l m, ((∃ a ∈ i.params, (l, m) ∈ fullRefs a.2) ∨
+        (l, m) ∈ fullRefs (merge (substV (maskReplica rep fun p => i.params.lookup p) i.arguments))) ∧
+      x ∈ convTok names (.ref l (some m)) := by
+  obtain ⟨_, hrefs, _⟩ := digest_ok_shape names rep i c h
+  rw [hrefs] at hx
+  obtain ⟨r, hr, hxr⟩ := List.mem_flatMap.mp hx
+  unfold allRefs at hr
+  rw [List.mem_eraseDups, List.mem_append] at hr
+  refine ⟨r.1, r.2, ?_, hxr⟩
+  cases hr with
+  | inl hl =>
+    obtain ⟨a, ha, hra⟩ := List.mem_flatMap.mp hl
+    exact Or.inl ⟨a, ha, hra⟩
+  | inr hr' => exact Or.inr hr'
+
+private def stagedInst : Inst :=
+  ⟨[entryName, lc "c"], .tmpl true 0 (some 1), 1,
+    [(lc "staged", [.ref [entryName, lc "p", lc "molecule.inp"] (some (lc "copy"))])], [.lit (lc "molecule.inp")],
+    none, false, false, false⟩
+
+/-- the hypotheses of `parameter_reference_kept` are satisfiable: a `:copy` reference that is only a parameter value -/
+example : (match digest [([entryName, lc "p"], (0, lc "p")), ([entryName, lc "c"], (0, lc "c"))] false stagedInst with
+    | .ok c => decide (c.refs = [.dref 0 (lc "p") [lc "molecule.inp"] (lc "copy")] ∧
+        c.producers = [[entryName, lc "p"]] ∧ c.args = [.lit (lc "molecule.inp")])
+    | _ => false) = true := by decide
+
+/-! ### the `environments` section: a component is bound to its own environment -/
+
+section envtab
+variable {H : Type} [DecidableEq H]
+
+theorem findSlot_some (hv : H) : ∀ (tab : List (H × S)) (k : Nat), findSlot hv tab = some k →
+    ∃ d, tab[k]? = some (hv, d) := by
+  intro tab
+  induction tab with
+  | nil => intro k h; simp [findSlot] at h
+  | cons e r ih =>
+    intro k h
+    unfold findSlot at h
+    by_cases he : e.1 = hv
+    · simp only [he, ↓reduceIte, Option.some.injEq] at h
+      subst h
+      exact ⟨e.2, by simp [← he]⟩
+    · simp only [he, ↓reduceIte] at h
+      cases hr : findSlot hv r with
+      | none => simp [hr] at h
+      | some j =>
+        simp only [hr, Option.map_some, Option.some.injEq] at h
+        subst h
+        obtain ⟨d, hd⟩ := ih j hr
+        exact ⟨d, by simpa using hd⟩
+
+/-- every entry of the table is registered under the hash of its own dictionary -/
+def TabOk (h : S → H) (tab : List (H × S)) : Prop := ∀ e ∈ tab, e.1 = h e.2
+
+private theorem prefix_get {α : Type} {a b : List α} (hp : a <+: b) {k : Nat} {x : α} (hk : a[k]? = some x) :
+    b[k]? = some x := by
+  obtain ⟨t, rfl⟩ := hp
+  have hlt : k < a.length := by
+    rcases Nat.lt_or_ge k a.length with hl | hl
+    · exact hl
+    · rw [List.getElem?_eq_none hl] at hk; cases hk
+  rw [List.getElem?_append_left hlt]; exact hk
+
+theorem bindEnv_spec (h : S → H) (tab : List (H × S)) (d : S) (hok : TabOk h tab) :
+    TabOk h (bindEnv h tab d).2 ∧ tab <+: (bindEnv h tab d).2 ∧
+    ∃ d', (bindEnv h tab d).2[(bindEnv h tab d).1]? = some (h d, d') ∧ h d' = h d := by
+  unfold bindEnv
+  cases hs : findSlot (h d) tab with
+  | some k =>
+    obtain ⟨d', hd'⟩ := findSlot_some (h d) tab k hs
+    refine ⟨hok, List.prefix_refl _, d', hd', ?_⟩
+    exact (hok _ (List.mem_of_getElem? hd')).symm
+  | none =>
+    refine ⟨?_, List.prefix_append _ _, d, by simp, rfl⟩
+    intro e he
+    rcases List.mem_append.mp he with h1 | h1
+    · exact hok e h1
+    · simp at h1; subst h1; rfl
+
+theorem bindAll_spec (h : S → H) : ∀ (ds : List S) (tab : List (H × S)), TabOk h tab →
+    tab <+: (bindAll h tab ds).2 ∧ (bindAll h tab ds).1.length = ds.length ∧
+    ∀ p ∈ ds.zip (bindAll h tab ds).1, ∃ d', (bindAll h tab ds).2[p.2]? = some (h p.1, d') ∧ h d' = h p.1 := by
+  intro ds
+  induction ds with
+  | nil => intro tab _; simp [bindAll]
+  | cons d r ih =>
+    intro tab hok
+    obtain ⟨hok1, hpre1, d', hget, hd'⟩ := bindEnv_spec h tab d hok
+    obtain ⟨hpre2, hlen, hall⟩ := ih (bindEnv h tab d).2 hok1
+    simp only [bindAll]
+    refine ⟨hpre1.trans hpre2, by simp [hlen], ?_⟩
+    intro p hp
+    simp only [List.zip_cons_cons, List.mem_cons] at hp
+    rcases hp with rfl | hp
+    · exact ⟨d', prefix_get hpre2 hget, hd'⟩
+    · exact hall p hp
+
+/-- `environment_binding_faithful`: when the hash tells different dictionaries apart, then — for every sequence of
+components with dictionary environments — every component gets a name, and the entry registered under the name of a
+component is that component's OWN dictionary (it is never bound to the environment of another instance). -/
+theorem environment_binding_faithful (h : S → H) (hinj : ∀ a b, h a = h b → a = b) (ds : List S) :
+    (bindAll h [] ds).1.length = ds.length ∧
+    ∀ p ∈ ds.zip (bindAll h [] ds).1, ((bindAll h [] ds).2[p.2]?).map (·.2) = some p.1 := by
+  obtain ⟨_, hlen, hall⟩ := bindAll_spec h ds [] (by intro e he; cases he)
+  refine ⟨hlen, ?_⟩
+  intro p hp
+  obtain ⟨d', hget, hd'⟩ := hall p hp
+  rw [hget, hinj _ _ hd']
+  rfl
+
+/-- whatever the hash: the entry a component is bound to has the same hash as the component's dictionary -/
+theorem environment_binding_same_hash (h : S → H) (ds : List S) :
+    ∀ p ∈ ds.zip (bindAll h [] ds).1, ((bindAll h [] ds).2[p.2]?).map (·.1) = some (h p.1) := by
+  obtain ⟨_, _, hall⟩ := bindAll_spec h ds [] (by intro e he; cases he)
+  intro p hp
+  obtain ⟨d', hget, _⟩ := hall p hp
+  rw [hget]; rfl
+
+end envtab
+
+example : (bindAll (fun d => d) [] [lc "a", lc "b", lc "a"]).1 = [0, 1, 0] ∧
+    (bindAll (fun d => d) [] [lc "a", lc "b", lc "a"]).2 = [(lc "a", lc "a"), (lc "b", lc "b")] := by decide
 
 end St4sd.C06
